@@ -3,12 +3,16 @@ running TLC, reading its statistics and emitted rows, known findings, evidence f
 import json, os, re, shutil, subprocess, sys, tempfile, time, hashlib
 
 VERIF = os.path.dirname(os.path.dirname(os.path.abspath(__file__)))
-REPO = os.environ.get("VERIF_REPO", "/repo")
+# The checks decide /repo's working tree.  VERIF_REPO=<another checkout> (used only by tools/seed.py to try a
+# seeded change in a scratch worktree without touching /repo) redirects the build and keeps its outputs apart.
+REPO = os.path.abspath(os.environ.get("VERIF_REPO", "/repo"))
+ALT = REPO != "/repo"
+_tag = hashlib.sha1(REPO.encode()).hexdigest()[:10] if ALT else ""
 SPEC = os.path.join(VERIF, "spec")
-BIN = os.path.join(VERIF, "bin")
-OUT = os.path.join(VERIF, "out")
-REPLAYS = os.path.join(VERIF, "replays")
-EVID = os.path.join(VERIF, "evidence")
+BIN = os.path.join(VERIF, "bin", _tag) if ALT else os.path.join(VERIF, "bin")
+OUT = os.path.join(VERIF, "out", _tag) if ALT else os.path.join(VERIF, "out")
+REPLAYS = os.path.join(OUT, "replays") if ALT else os.path.join(VERIF, "replays")
+EVID = os.path.join(OUT, "evidence") if ALT else os.path.join(VERIF, "evidence")
 NCPU = os.cpu_count() or 4
 
 
@@ -52,6 +56,14 @@ def build_harness(race=False):
         return _built[key]
     os.makedirs(BIN, exist_ok=True)
     hdir = os.path.join(VERIF, "harness")
+    if ALT:
+        # a private copy of the harness module whose replace directives point at the other checkout
+        alt = os.path.join(BIN, "harness-src")
+        shutil.rmtree(alt, ignore_errors=True)
+        shutil.copytree(hdir, alt)
+        gm = open(os.path.join(alt, "go.mod")).read().replace("=> /repo", "=> " + REPO)
+        open(os.path.join(alt, "go.mod"), "w").write(gm)
+        hdir = alt
     # go.sum is derived from the repository's own sums every time (offline, no proxy)
     sums = set()
     for m in (".", "schema", "cmd/cdi", "cmd/validate"):
